@@ -38,8 +38,8 @@ CONFIG = {
         modules=["CanVerif.Props.C06", "CanVerif.Bridge.FrameGo", "CanVerif.Props.C06Code"],
         t2_modules=["CanVerif.Bridge.FrameGo", "CanVerif.Props.C06Code"],
         technique="Lean 4 kernel-checked theorems about an executable model; the model is tied to the code (a) by a Go-to-Lean translator run on every check with equivalence to the model proved for all inputs (bv_decide) and (b) by differential execution (correspondence) on every run",
-        level_text="Kernel-checked Lean theorems (Props/C06.lean): transmit layout of every frame, flag/ID/length/data decoding of every one of the 2^128 blocks, error-frame fields at the linux/can/error.h offsets, validation iff, and decode(encode f) = f for every valid frame; the model is compared with the real Transmitter/Receiver (public API, recording net.Conn / scripted reader) on all 2^11 standard IDs, structured and random extended IDs and blocks on every run; flag/mask constants cross-checked against golang.org/x/sys/unix. Frame.Validate, encodeFrame, decodeFrame, the flag / ID getters and the error-frame getters are additionally translated from the working tree to Lean on every run (T1, harness/cmd/go2lean) and proved equal to the model for every frame, and panic-free (Bridge/FrameGo.lean, bv_decide); marshalBinary / unmarshalBinary are translated too (the first 16 bytes of the slice and its length are modelled; shorter slices provably panic at the code's own bounds check); Props/C06Code.lean restates validation, the transmitted 16 bytes, the decoding of every one of the 2^128 received blocks, error fields and the end-to-end round trip about the translated transmit and receive paths (codeWire, codeUnwire). If the translator does not cover the current source shape the run says so (coverage.tie_notes) and rests on the correspondence run.",
-        level_note="Trusted: Lean kernel; Model/Frame.lean validated by correspondence; the byte<->BitVec 128 conversion of the driver; kernel ABI constants transcribed by hand (cross-checked with x/sys/unix). T1 bridge theorems and the *Code corollaries additionally depend on bv_decide certificate axioms (listed per theorem under coverage.axioms); Byte slices are modelled as their first 16 bytes plus length; the composition of the translated functions in TransmitFrame / Receive (fresh zero buffer, fresh zero frame) is written by hand in Props/C06Code.lean (codeWire, codeUnwire).",
+        level_text="Kernel-checked Lean theorems (Props/C06.lean): transmit layout of every frame, flag/ID/length/data decoding of every one of the 2^128 blocks, error-frame fields at the linux/can/error.h offsets, validation iff, and decode(encode f) = f for every valid frame; the model is compared with the real Transmitter/Receiver (public API, recording net.Conn / scripted reader) on all 2^11 standard IDs, structured and random extended IDs and blocks on every run; flag/mask constants cross-checked against golang.org/x/sys/unix. Frame.Validate, encodeFrame, decodeFrame, the flag / ID getters and the error-frame getters are additionally translated from the working tree to Lean on every run (T1, harness/cmd/go2lean) and proved equal to the model for every frame, and panic-free (Bridge/FrameGo.lean, bv_decide); marshalBinary / unmarshalBinary are translated too (the first 64 bytes of the slice and its length are modelled; shorter slices provably panic at the code's own bounds check); Props/C06Code.lean restates validation, the transmitted 16 bytes, the decoding of every one of the 2^128 received blocks, error fields and the end-to-end round trip about the translated transmit and receive paths (codeWire, codeUnwire). If the translator does not cover the current source shape the run says so (coverage.tie_notes) and rests on the correspondence run.",
+        level_note="Trusted: Lean kernel; Model/Frame.lean validated by correspondence; the byte<->BitVec 128 conversion of the driver; kernel ABI constants transcribed by hand (cross-checked with x/sys/unix). T1 bridge theorems and the *Code corollaries additionally depend on bv_decide certificate axioms (listed per theorem under coverage.axioms); Byte slices are modelled as their first 64 bytes plus length; the composition of the translated functions in TransmitFrame / Receive (fresh zero buffer, fresh zero frame) is written by hand in Props/C06Code.lean (codeWire, codeUnwire).",
         level="proof", exhaustive=True,
         exhaustive_what="all 2^11 standard IDs; all 8 flag combinations x 37 ID patterns x dlc classes for received blocks; Validate for every length 0..255",
         trivial=r"^(ok|err|-)$",
@@ -67,7 +67,7 @@ CONFIG = {
     ),
     "C15": dict(
         level_text="Kernel-checked Lean theorems (Props/C15.lean) over byte strings: every instance of the documented pattern in either letter case parses to the frame it denotes (C15_accept), the text of every valid frame is an upper-case pattern instance (C15_print_shape) and parses back to the identical frame (C15_roundtrip), parsing is total and atomic by construction with every partial Go operation guarded; the model is compared with Frame.String/UnmarshalString on all 2^11 standard IDs, extended boundary/random IDs, grammar-derived, mutated and random byte strings (destination pre-filled with a sentinel) on every run.",
-        level_note="Trusted: Lean kernel; Model/FrameText.lean models fmt %03X/%08X, strconv.ParseUint/Atoi, encoding/hex, strings.Split for the inputs that occur (validated by correspondence); harness and driver. The re-print clause for data frames is covered by correspondence only.",
+        level_note="Trusted: Lean kernel; Model/FrameText.lean models fmt %03X/%08X, strconv.ParseUint/Atoi, encoding/hex, strings.Split for the inputs that occur (validated by correspondence); harness and driver. Every parsed frame has zero unused bytes (C15_parsed_unused_zero) and printing and re-parsing a valid parsed frame is the identity (C15_reprint).",
         level="proof", exhaustive=True,
         exhaustive_what="all 2^11 standard IDs; remote lengths 0..255",
         trivial=r"^(err|-)$",
@@ -75,7 +75,7 @@ CONFIG = {
     ),
     "C16": dict(
         level_text="Kernel-checked Lean theorems (Props/C16.lean): the encoder output of every valid frame is exactly the serialisation of the members the property lists (C16_members); decoding that object with the modelled encoding/json struct rules and UnmarshalJSON's logic returns the identical frame (C16_roundtrip_tree); remote without length is rejected; decoding is total. The text->tree step (a Lean model of encoding/json's scanner) is executable and compared with encoding/json on every run: JSON() output checked with json.Valid and json.Marshal, round trips directly and inside slices/maps/structs/pointers, and structured, mutated and fixed edge documents decoded on both sides.",
-        level_note="Trusted: Lean kernel; Model/Json.lean is a model of encoding/json (stdlib), validated by correspondence only; parseJson is not proved inverse to renderObj (stated in DESIGN.md); nesting depth > 10000 and invalid UTF-8 replacement are outside the model.",
+        level_note="Trusted: Lean kernel; Model/Json.lean is a model of encoding/json (stdlib), validated by correspondence only; the scanner model reads the encoder's text back as the tree written (parseJson_renderObj, C16 text round trip); nesting depth > 10000 and invalid UTF-8 replacement are outside the model.",
         level="proof", exhaustive=True,
         exhaustive_what="all 2^11 standard IDs for the encoder; the fixed edge-document list",
         trivial=r"^(err|-)$",
